@@ -126,8 +126,12 @@ def _REPO():
 # ------------------------------------------------------------------------------- replay
 def run_replay(path: str, timeout=60) -> dict:
     try:
+        env = dict(os.environ)
+        if os.environ.get("PYVC_REPO"):
+            # developer / mutation runs on a scratch copy: replay against the same tree the VCs came from
+            env["PYTHONPATH"] = os.path.join(os.environ["PYVC_REPO"], "src")
         p = subprocess.run([VENV_PY, os.path.join(ROOT, "replay", "run.py"), path], capture_output=True, text=True,
-                           timeout=timeout, cwd=ROOT)
+                           timeout=timeout, cwd=ROOT, env=env)
         line = p.stdout.strip().splitlines()[-1] if p.stdout.strip() else ""
         return json.loads(line) if line else {"status": "error", "detail": p.stderr[-500:]}
     except subprocess.TimeoutExpired:
